@@ -2624,6 +2624,9 @@ class sptensor:
 
             return
         # Case I(b): Value is zero or scalar
+        if not isinstance(value, (int, float)):
+            # Rejected before the tensor is resized: the receiver stays as it was
+            assert False, "Invalid assignment value"
 
         # First, resize the tensor, determine new size of existing modes
         newsz = []
